@@ -200,7 +200,8 @@ def monitor_user(case, r):
 def explore_user(ctx, props, n_prim, n_op=0, n_cyclic=0):
     rng = random.Random(ctx.seed * 104729 + 5)
     viol, dis = [], []
-    st = {"runs": 0, "engine_traces_validated": 0, "labels_replayed": 0, "with_literals_deps": 0, "cyclic": 0, "failing": 0}
+    st = {"runs": 0, "engine_traces_validated": 0, "labels_replayed": 0, "with_literals_deps": 0, "cyclic": 0, "failing": 0,
+          "failing_nonstring_scope": 0}
     distinct = set()
     for i in range(n_prim + n_op + n_cyclic):
         cyc = i >= n_prim + n_op
@@ -210,6 +211,11 @@ def explore_user(ctx, props, n_prim, n_op=0, n_cyclic=0):
             kinds = list(plans.EXC)
             for idx, k in enumerate(sorted(case["failing"])):
                 case["failing"][k] = kinds[(i + idx) % len(kinds)]
+            # ... and so does a failing call created in a scope that is not made of strings (scopes are arbitrary values)
+            first = int(sorted(case["failing"])[0])
+            if i % 3 == 0:
+                case["spec"]["nodes"][first]["scope"] = [[2024, "q"], [i], ["a", 1]][(i // 3) % 3]
+            st["failing_nonstring_scope"] += any(not isinstance(x, str) for x in case["spec"]["nodes"][first].get("scope", []))
         mode = "opcode" if n_prim <= i < n_prim + n_op else "prim"
         seed = rng.randrange(1 << 30)
         r = run_user_case(case, seed, mode=mode)
